@@ -153,6 +153,8 @@ def describe_construct(ev, obs, entry):
     o = (obs or [{}])[0] if isinstance(obs, list) else {}
     if ev.get("fn") == "NewDecimal":
         call = "NewDecimal(%d, %s)" % (pretty.num(ev["is"][0]), ev["e"])
+    elif ev.get("fn") == "Duration.Duration":
+        call = "NewDurationFromMillis(%d).Duration() [nanoseconds]" % pretty.num(ev["is"][0])
     else:
         f = ev["fs"][0]
         p = f["p"]
@@ -633,8 +635,11 @@ def run_C10(ctx):
     dcases = os.path.join(dd, "cases.ndjson")
     # the schema text printer indents by depth: its OUTPUT is quadratic in the nesting depth (256 MB at 16 000), so the
     # schema forms stop at 20 000 -- slow is not a hang, and a deadline cannot tell them apart
-    vlib.write_ndjson(dcases, [dict(op="totaldepth", form=f, k=(min(k, 20000) if f.startswith("schema") else k))
-                               for f in forms for k in depths])
+    dcs = [dict(op="totaldepth", form=f, k=(min(k, 20000) if f.startswith("schema") else k)) for f in forms for k in depths]
+    if not q:
+        # 10^6: beyond what the recursive-descent parser, the folder and the evaluator survive (recorded known finding)
+        dcs += [dict(op="totaldepth", form=f, k=1000000) for f in ("parens", "not", "jsonarray")]
+    vlib.write_ndjson(dcases, dcs)
     replay_cases(ctx, "nesting", "totaldepth", dcases, len(forms))
     # (d) truncations and byte edits
     add_m3(ctx, "totalbytes", "bytes", "totalbytes", 6000 if q else 120000, params={"step": 7 if q else 1}, shards=(2 if q else vlib.MAX_SHARDS))
